@@ -15,6 +15,7 @@ from __future__ import annotations
 import itertools
 import math
 import re
+import signal
 from decimal import Decimal
 from fractions import Fraction as Fr
 
@@ -152,10 +153,34 @@ def rects_str(rs, mode: str) -> str:
     return str(len(rs)) + "".join(" | " + rect_in(r, mode) + " X" for r in rs)
 
 
+_TIMEOUTS: list[int] = []
+
+
+class time_limit:
+    """a run-away loop in the implementation becomes an exception (reported as `operation-raised`), not a hung check."""
+
+    def __init__(self, seconds: int):
+        self.seconds = seconds
+
+    def _fire(self, *_):
+        raise TimeoutError(f"no result after {self.seconds} s")
+
+    def __enter__(self):
+        self.old = signal.signal(signal.SIGALRM, self._fire)
+        signal.alarm(self.seconds)
+
+    def __exit__(self, *exc):
+        signal.alarm(0)
+        signal.signal(signal.SIGALRM, self.old)
+        return False
+
+
 class Run:
     """one execution of the implementation."""
 
     def __init__(self, case: dict):
+        if len(_TIMEOUTS) >= 3:
+            raise Unserialisable()   # the implementation loops: three reports are enough, do not burn the budget
         self.case = case
         mode = case["mode"]
         set_state(case.get("pre"))
@@ -178,13 +203,16 @@ class Run:
             except Exception:
                 raise Unserialisable()           # not YAML: text layer, outside the model
             try:
-                self.die = Die(case["doc"], self.netlist)
+                with time_limit(20):
+                    self.die = Die(case["doc"], self.netlist)
                 self.impl = "ok"
             except AssertionError:
                 self.impl = "err:Assert"
             except Exception as e:  # not modelled: reported as `operation-raised`
                 self.impl = "err:" + type(e).__name__
                 self.raised = repr(e)[:300]
+                if isinstance(e, TimeoutError):
+                    _TIMEOUTS.append(1)
             self.st1 = get_state()
         finally:
             Rectangle.undefine_epsilon()
@@ -848,6 +876,7 @@ def run(ctx: Ctx) -> None:
                 "class-wide tolerance defined beforehand.  Non-trivial = accepted by the implementation, or malformed, or clearly invalid.")
     rng = ctx.rng
     quick = ctx.tier == "quick"
+    _TIMEOUTS.clear()
     cases = corpus("Q") + corpus("F")
     n = ctx.n(2000, 20000)
     max_cells, max_regions = (6, 8) if quick else (10, 20)
@@ -890,6 +919,9 @@ def replay(ctx: Ctx, body: dict) -> None:
             Rectangle.set_epsilon(inp["eps"])
             try:
                 x, y = gather_boundaries(rs)
+            except Exception as e:
+                ctx.spec_fail("operation-raised", inp, {"raised": repr(e)[:300]}, 1)
+                return
             finally:
                 Rectangle.undefine_epsilon()
             impl = f"{len(x)}" + "".join(" " + sc(v, mode) for v in x) + f" ; {len(y)}" + "".join(" " + sc(v, mode) for v in y)
